@@ -10,7 +10,7 @@ LEVEL = "proof"
 AREA = "RemedC11"
 PROPS = AREA + "/Props_C11.v"
 COQ_FILES = ["Lib/SortSearch.v"] + [AREA + "/" + f for f in
-             ("Upgrade.v", "Suggest.v", "Relax.v", "Override.v", "Cases.v", "Proofs.v", "Props_C11.v")]
+             ("Upgrade.v", "Suggest.v", "Relax.v", "Override.v", "RelaxLoop.v", "Cases.v", "Proofs.v", "Props_C11.v")]
 KNOWN_FILE = os.path.join(vlib.VERIF, "KNOWN_FINDINGS.d", "C11.json")
 
 # Coq record type of a stream -> (what it ties, theorems that speak about it)
@@ -23,8 +23,10 @@ STREAMS = {
     "rcase": ("relaxer.NpmRelaxer.Relax vs Relax.relax_npm",
               ["relax_none_untouched", "relax_strictly_up", "relax_level_checked", "relax_range_within_level",
                "relax_level_from_resolved_refuted"]),
+    "xcase": ("relax.patchVulns vs RelaxLoop.run_relax",
+              ["relax_only_touches_responsible_directs", "relax_terminates"]),
     "vcase": ("override.getVersionsGreater vs Override.get_versions_greater",
-              ["override_strictly_up", "get_versions_greater_unlisted_refuted"]),
+              ["override_strictly_up", "sort_unique_on_distinct"]),
     "ocase": ("override.patchVulns vs Override.patch_vulns",
               ["override_strictly_up", "override_within_level", "override_within_level_of_original",
                "override_none_untouched", "override_terminates", "override_resolved_version_refuted"]),
@@ -44,7 +46,7 @@ META = {
                   "suggestMavenVersion (suggest_not_downgrade and suggest_no_panic without a domain since fix 81d44206; "
                   "relax_range_within_level for every valid level since fix e6d56740; override_terminates for every resolver "
                   "since fix 37eca69c). Still refuted at full strength: override_resolved_version_refuted (a package need not "
-                  "resolve to the override asked for; combined patches can pull it down), get_versions_greater_unlisted_refuted, relax_level_from_resolved_refuted (npm resolves to the latest-tagged version, relax reasons from the highest match). The models are tied to the code on every run by evaluating them "
+                  "resolve to the override asked for; combined patches can pull it down), relax_level_from_resolved_refuted (npm resolves to the latest-tagged version, relax reasons from the highest match). The models are tied to the code on every run by evaluating them "
                   "with vm_compute on the oracle answers recorded while the real functions ran.",
     "level_note": "Trusted: Coq kernel + vm_compute; Go harness harness/cmd/remed; hooks guidedremediation/verif_export_c11.go "
                   "(+ override/relax/suggest verif_export_c11.go); deps.dev resolve/semver (Compare total preorder, Difference "
@@ -287,7 +289,9 @@ def evidence(ctx, pa, cases, res, meta, tb_extra):
         "validated on every generated package)",
         "an overridden Maven package resolves to the overriding version and a resolved graph has one version per package "
         "(premises of override_terminates; validated on every traced re-resolution)",
-        "slices.SortFunc on <= 12 elements is insertion sort (pdqsort's small-slice path)",
+        "slices.SortFunc returns a sorted permutation: on version lists without equal keys that list is unique "
+        "(sort_unique_on_distinct), packages with up to 30 versions are generated; lists WITH equal keys or unparsable "
+        "entries are generated with <= 12 elements only, where slices.SortFunc is insertion sort (the model's go_sort)",
     ]
 
 
@@ -304,7 +308,7 @@ def replay(ctx, path):
     if not terms:
         return 0
     v = ("From Coq Require Import List ZArith NArith Bool.\n"
-         "From Scalibr Require Import RemedC11.Upgrade RemedC11.Suggest RemedC11.Relax RemedC11.Override RemedC11.Cases.\n"
+         "From Scalibr Require Import RemedC11.Upgrade RemedC11.Suggest RemedC11.Relax RemedC11.Override RemedC11.RelaxLoop RemedC11.Cases.\n"
          "Import ListNotations.\nOpen Scope N_scope.\n")
     for i, (ty, term) in enumerate(terms):
         ty = ty[2:] if ty.startswith("k_") else ty
